@@ -4,7 +4,7 @@ Proof: XcpProps/C08.lean.  Correspondence (A): pre-populated destinations with c
 schedules; pre-existing entries compared before/after (content, kind, link text, mode, mtime for non-directories);
 every mutating call of the trace must target a path that did not exist before (the `FreshRun` hypothesis)."""
 import os, stat
-from .. import core, treerun, treegen
+from .. import core, scen, treerun, treegen
 
 
 def meta_of(root, tokens):
@@ -161,7 +161,32 @@ def run(ctx):
             ctx.violation(f'case-{i}-corr.json', dict(argv=[repr(x) for x in o.argv], request=o.request, model_exit=ex, impl_exit=o.res.cls, stderr=o.res.stderr[-300:], diff=treerun.diff_tokens(o.after, toks, 20),
                                                       correspondence='exit class / end state under --no-clobber vs Xcp.L1run', theorems=['Xcp.C08.collision_emits_no_operation']),
                           f'model/implementation disagree under --no-clobber (impl {o.res.cls}, model {ex})', no_input=True)
-    ctx.cov['rule'] = ('random source trees; destination absent or pre-populated; one colliding entry of kind {file, directory, live link, dangling link, fifo} placed at the target of a random source entry '
+    # ---- as an unprivileged user, into a destination directory that may be searched and written but NOT LISTED (mode 0300, a
+    # drop box): the existence of a target is still decided (lstat needs search permission only); a listing that cannot be
+    # read is not an empty directory
+    import subprocess
+    with core.Scratch('c08u') as ub:
+        for driver in ('parfile', 'parblock'):
+            for shape in ('file', 'tree', 'link'):
+                u = ub + '/u'
+                subprocess.run(f'chmod -R u+rwx {u} 2>/dev/null; rm -rf {u}', shell=True); os.makedirs(u + '/S/sub'); os.makedirs(u + '/D/S/sub'); os.makedirs(u + '/elsewhere')
+                for nm in ('S/report', 'S/sub/x'):
+                    open(f'{u}/{nm}', 'wb').write(b'NEW ' + nm.encode())
+                open(u + '/D/S/report', 'wb').write(b'old report'); open(u + '/D/report', 'wb').write(b'old top report'); open(u + '/elsewhere/t', 'wb').write(b'old target')
+                os.symlink('../../../elsewhere/t', u + '/D/S/sub/x')
+                subprocess.run(f'chown -R 61234:61234 {u}', shell=True)
+                for dd in ('D', 'D/S', 'D/S/sub'):
+                    os.chmod(f'{u}/{dd}', 0o300)
+                argv = {'file': ['-n', '--driver', driver, 'S/report', 'D/report'], 'tree': ['-n', '-r', '-T', '--driver', driver, 'S', 'D/S'], 'link': ['-n', '--driver', driver, 'S/sub/x', 'D/S/sub/x']}[shape]
+                r = scen.run_xcp(u, argv, ids=(61234, 61234, []), timeout=30)
+                now = {nm: open(f'{u}/{nm}', 'rb').read() for nm in ('D/S/report', 'D/report', 'elsewhere/t')}
+                ctx.count(f'unlistable_destination.{shape}.{r.cls}'); ctx.case(('unlistable-destination', driver, shape), True)
+                changed = [nm for nm, want in (('D/S/report', b'old report'), ('D/report', b'old top report'), ('elsewhere/t', b'old target')) if now[nm] != want]
+                if changed or r.cls == '0' or not os.path.islink(u + '/D/S/sub/x'):
+                    ctx.violation(f'unlistable-{driver}-{shape}.json', dict(argv=argv, exit=r.cls, stderr=r.stderr[-300:], changed=changed),
+                                  f'C08: no-clobber into a directory that cannot be listed: exit {r.cls}, altered {changed}')
+                subprocess.run(f'chmod -R u+rwx {u}', shell=True)
+    ctx.cov['rule'] = ('as an unprivileged user into unlistable (0300) destination directories; random source trees; destination absent or pre-populated; one colliding entry of kind {file, directory, live link, dangling link, fifo} placed at the target of a random source entry '
                        '(any depth, any position in walk order) with its ancestors; -T or into-directory mapping; both drivers; a third of the runs under perturbed schedules. '
                        'distinct = distinct scenario; non-trivial = a collision is present')
 
